@@ -13,6 +13,9 @@ import (
 
 func init() { register("C03", LoadTyped, checkC03) }
 
+// names found by role on each run (see checkC03)
+var c03StateName, c03NlFld, c03SpFld string
+
 func checkC03(c *Check) {
 	p := c.P
 	c.Explanation = "C03 (structural clauses of the hand-written indentation lexer): (1) every token type whose generated lexer action records a line break (stores true to lexerState.gotNewLine) is in the set of token types the token pump returns unchanged while a line break is pending, and the whole-line comment token returns before indentation is synthesised — otherwise a blank or comment line is measured as indentation; (2) the leading-width function is additive with space = 1 and tab = 4 and nothing else (a necessary condition for uniform re-indentation and tab-for-4-spaces to preserve the order of indent widths); (3) in the synthesis loop every push on the indent stack is paired with an emitted INDENT token and every pop with a DEDENT token. Equality of the models of two layouts is not decided."
@@ -49,6 +52,78 @@ func checkC03(c *Check) {
 		return
 	}
 	c.Okf("ANCHOR", "token pump="+fnName(pump), p.pos(pump.Pos()), "%d lexer token constants", len(tokConst))
+	// the lexer state and its two fields, by role: the struct that holds the
+	// indentation stack (a named []int with Push and Pop); the "line break pending"
+	// flag is its bool field that the pump (or a helper) resets to false; the width
+	// of the current line is its int field that the pump compares with the stack top
+	c03StateName, c03NlFld, c03SpFld = "", "", ""
+	{
+		var pumpFns []*ssa.Function
+		for g := range repoReach(p, pump) {
+			if fnPkgPath(g) == grammarPkg && !p.isGeneratedFile(p.fnFile(g)) {
+				pumpFns = append(pumpFns, g)
+			}
+		}
+		sort.Slice(pumpFns, func(i, j int) bool { return fnName(pumpFns[i]) < fnName(pumpFns[j]) })
+		sc := gp.Pkg.Scope()
+		for _, n := range sc.Names() {
+			tn, ok := sc.Lookup(n).(*types.TypeName)
+			if !ok {
+				continue
+			}
+			st, ok := tn.Type().Underlying().(*types.Struct)
+			if !ok {
+				continue
+			}
+			for i := 0; i < st.NumFields(); i++ {
+				ft := namedOf(st.Field(i).Type())
+				if ft == nil {
+					continue
+				}
+				if sl, ok := ft.Underlying().(*types.Slice); !ok || !isIntType(sl.Elem()) {
+					continue
+				}
+				ms := types.NewMethodSet(types.NewPointer(ft))
+				if ms.Lookup(gp.Pkg, "Push") != nil && ms.Lookup(gp.Pkg, "Pop") != nil {
+					c03StateName = tn.Name()
+				}
+			}
+		}
+		for _, g := range pumpFns {
+			eachInstr(g, func(_ *ssa.BasicBlock, i ssa.Instruction) {
+				switch x := i.(type) {
+				case *ssa.Store:
+					if own, fld, _, ok := fieldOfAddr(x.Addr); ok && own != nil && own.Obj().Name() == c03StateName && isBoolType(x.Val.Type()) {
+						if cv, ok := x.Val.(*ssa.Const); ok && cv.Value != nil && cv.Value.String() == "false" && c03NlFld == "" {
+							c03NlFld = fld
+						}
+					}
+				case *ssa.BinOp:
+					switch x.Op {
+					case token.EQL, token.NEQ, token.GTR, token.LSS, token.GEQ, token.LEQ:
+					default:
+						return
+					}
+					for _, pair := range [][2]ssa.Value{{x.X, x.Y}, {x.Y, x.X}} {
+						own, fld, _, ok := loadedField(pair[0])
+						if !ok || own == nil || own.Obj().Name() != c03StateName || !isIntType(pair[0].Type()) {
+							continue
+						}
+						// compared with the indentation of the innermost open block (the
+						// stack top, read directly or kept in a local): not a constant
+						if _, isConst := pair[1].(*ssa.Const); !isConst && c03SpFld == "" {
+							c03SpFld = fld
+						}
+					}
+				}
+			})
+		}
+	}
+	if c03StateName == "" || c03NlFld == "" || c03SpFld == "" {
+		c.Undecidedf("ANCHOR", "lexer state", "-", "cannot identify the lexer state struct (holder of the indent stack: %q), its line-break flag (%q) or its line-width field (%q)", c03StateName, c03NlFld, c03SpFld)
+		return
+	}
+	c.Notes = append(c.Notes, fmt.Sprintf("lexer state %s: line-break flag %s, line width %s", c03StateName, c03NlFld, c03SpFld))
 
 	// (1) A: tokens whose action sets gotNewLine
 	A := map[string]string{}
@@ -61,7 +136,7 @@ func checkC03(c *Check) {
 			if !ok {
 				return
 			}
-			if own, fld, _, ok := fieldOfAddr(st.Addr); ok && own != nil && own.Obj().Name() == "lexerState" && fld == "gotNewLine" {
+			if own, fld, _, ok := fieldOfAddr(st.Addr); ok && own != nil && own.Obj().Name() == c03StateName && fld == c03NlFld {
 				if cv, ok := st.Val.(*ssa.Const); ok && cv.Value != nil && cv.Value.String() == "true" {
 					A[strings.TrimSuffix(f.Name(), "_Action")] = p.pos(st.Pos())
 				}
@@ -116,7 +191,7 @@ func checkC03(c *Check) {
 				continue
 			}
 			// guarded by gotNewLine?
-			if guardedByField(b, "gotNewLine") {
+			if guardedByField(b, c03NlFld) {
 				B[k] = true
 			}
 		}
@@ -154,7 +229,7 @@ func checkC03(c *Check) {
 					break
 				}
 			}
-			if _, ok := t.Instrs[len(t.Instrs)-1].(*ssa.Return); ok && (guardedByField(b, "gotNewLine") || guardedByField(br.If.Block(), "gotNewLine")) {
+			if _, ok := t.Instrs[len(t.Instrs)-1].(*ssa.Return); ok && (guardedByField(b, c03NlFld) || guardedByField(br.If.Block(), c03NlFld)) {
 				leads = true
 			}
 		}
@@ -208,9 +283,30 @@ func checkC03(c *Check) {
 	}
 	// comment bypass precedes synthesis
 	var pushes []ssa.Instruction
+	isPush := func(sc *ssa.Function) bool {
+		return sc != nil && sc.Name() == "Push" && fnPkgPath(sc) == grammarPkg
+	}
 	eachCall(pump, func(cl ssa.CallInstruction) {
-		if sc := staticCallee(cl); sc != nil && sc.Name() == "Push" && fnPkgPath(sc) == grammarPkg {
+		sc := staticCallee(cl)
+		if isPush(sc) {
 			pushes = append(pushes, cl)
+			return
+		}
+		// the synthesis may live in a helper of the pump (syncIndent): the call of a
+		// helper that can reach a Push is where synthesis starts
+		if sc != nil && fnPkgPath(sc) == grammarPkg && !p.isGeneratedFile(p.fnFile(sc)) {
+			for g := range repoReach(p, sc) {
+				found := false
+				eachCall(g, func(c2 ssa.CallInstruction) {
+					if isPush(staticCallee(c2)) {
+						found = true
+					}
+				})
+				if found {
+					pushes = append(pushes, cl)
+					break
+				}
+			}
 		}
 	})
 	okComment := commentIf != nil
@@ -268,7 +364,7 @@ func c03Width(c *Check) {
 			if !ok {
 				return
 			}
-			if own, fld, _, ok := fieldOfAddr(st.Addr); ok && own != nil && own.Obj().Name() == "lexerState" && fld == "spaces" {
+			if own, fld, _, ok := fieldOfAddr(st.Addr); ok && own != nil && own.Obj().Name() == c03StateName && fld == c03SpFld {
 				if call, ok := st.Val.(*ssa.Call); ok {
 					if sc := staticCallee(call); sc != nil && isRepoFn(sc) {
 						widthFns[sc] = true
@@ -404,7 +500,21 @@ func c03Stack(c *Check, pump *ssa.Function, tokConst map[string]int64) {
 		})
 	}
 	n := 0
-	for _, b := range pump.Blocks {
+	// the pump and the hand-written helpers it calls
+	var pumpBlocks []*ssa.BasicBlock
+	pumpBlocks = append(pumpBlocks, pump.Blocks...)
+	for g := range repoReach(p, pump) {
+		if g != pump && fnPkgPath(g) == grammarPkg && !p.isGeneratedFile(p.fnFile(g)) {
+			pumpBlocks = append(pumpBlocks, g.Blocks...)
+		}
+	}
+	sort.SliceStable(pumpBlocks, func(i, j int) bool {
+		if pumpBlocks[i].Parent() != pumpBlocks[j].Parent() {
+			return fnName(pumpBlocks[i].Parent()) < fnName(pumpBlocks[j].Parent())
+		}
+		return pumpBlocks[i].Index < pumpBlocks[j].Index
+	})
+	for _, b := range pumpBlocks {
 		var op string
 		var at ssa.Instruction
 		emits := map[string]bool{}
@@ -519,4 +629,9 @@ func c03LayoutBlind(c *Check) {
 	if n < 3 {
 		c.Undecidedf("LAYOUT-BLIND", "pkg/parse", "-", "only %d reads of token positions found: unresolved anchor", n)
 	}
+}
+
+func isIntType(t types.Type) bool {
+	b, ok := t.Underlying().(*types.Basic)
+	return ok && b.Info()&types.IsInteger != 0
 }
